@@ -58,12 +58,23 @@ class Obligation(object):
     def smt2(self):
         return smt.to_smt2(self.assumptions + [z3.Not(self.goal)])
 
+    def fingerprints(self):
+        return [fingerprint(a) for a in self.assumptions]
+
     def slices(self):
         """Relevance slices of the assumptions (dropping assumptions is
         sound): direct, two-step and transitive cone of the goal's symbols.
         Returns list of (name, smt2 text), smallest first, full VC last."""
         syms = [symbols_of(a) for a in self.assumptions]
         out = []
+        hint = HINTS.get(strip_path(self.label_key()))
+        if hint:
+            fps = self.fingerprints()
+            sel = [i for i, f in enumerate(fps) if f in hint]
+            if sel and len(sel) < len(self.assumptions):
+                out.append(('hint', smt.to_smt2(
+                    [self.assumptions[i] for i in sel]
+                    + [z3.Not(self.goal)])))
         seen_sizes = set()
         cone = set(symbols_of(self.goal))
         if not cone and self.assumptions:
@@ -71,6 +82,7 @@ class Obligation(object):
             # start from the branch condition that led here
             cone = set(symbols_of(self.assumptions[self.n_pc - 1]))
         picked = set()
+        picked_first = None
         for depth in (1, 2, 3):
             changed = False
             new = set(cone)
@@ -80,6 +92,8 @@ class Obligation(object):
                     new |= sy
                     changed = True
             cone = new
+            if picked_first is None:
+                picked_first = set(picked)
             if len(picked) not in seen_sizes and \
                     len(picked) < len(self.assumptions):
                 seen_sizes.add(len(picked))
@@ -88,8 +102,50 @@ class Obligation(object):
                             smt.to_smt2(sel + [z3.Not(self.goal)])))
             if not changed:
                 break
+        # closed slices: only assumptions whose constants all lie inside the
+        # cone reached after d steps (facts that would drag in unrelated
+        # variables are left out)
+        def only_consts(sy):
+            return set(x for x in sy if '!' in x)
+        cone_c = only_consts(symbols_of(self.goal))
+        if not cone_c and self.assumptions:
+            cone_c = only_consts(symbols_of(
+                self.assumptions[self.n_pc - 1]))
+        consts = [only_consts(sy) for sy in syms]
+        closed = []
+        for depth in (1, 2):
+            grow = set(cone_c)
+            for sy in consts:
+                if sy & cone_c:
+                    grow |= sy
+            cone_c = grow
+            sel = [i for i, sy in enumerate(consts)
+                   if sy and sy <= cone_c]
+            if sel and len(sel) < len(self.assumptions):
+                closed.append(('closed%d' % depth, smt.to_smt2(
+                    [self.assumptions[i] for i in sel]
+                    + [z3.Not(self.goal)])))
+        out = closed[:1] + out[:1] + closed[1:] + out[1:]
+        # random sub-slices: the solvers are often confused by the sheer
+        # number of irrelevant facts; any subset of the assumptions is sound
+        import random
+        rng = random.Random(hash(self.label) & 0xffff)
+        base = set(picked_first) if picked_first else set()
+        n = len(self.assumptions)
+        for t in range(6):
+            sel = sorted(base | set(i for i in range(n)
+                                    if rng.random() < (0.5 if t < 4 else 0.3)))
+            if len(sel) < n:
+                out.append(('rand%d' % t, smt.to_smt2(
+                    [self.assumptions[i] for i in sel]
+                    + [z3.Not(self.goal)])))
+        seeds = ','.join(str(i) for i in sorted(base))
+        out.append(('cegar', '; seeds: %s\n%s' % (seeds, self.smt2())))
         out.append(('full', self.smt2()))
         return out
+
+    def label_key(self):
+        return '%s#%s' % (getattr(self, 'func', ''), self.label)
 
     def trivially_true(self):
         g = z3.simplify(self.goal)
@@ -161,6 +217,38 @@ def symbols_of(e):
     r = frozenset(out)
     _sym_cache[key] = r
     return r
+
+
+import hashlib as _hashlib
+import re as _re
+
+HINTS = {}      # 'function#label' -> set of assumption fingerprints
+_fp_cache = {}
+
+
+def fingerprint(e):
+    """Stable name of an assumption: its text with the fresh-name counters
+    removed (proof hints refer to assumptions by fingerprint)."""
+    key = e.get_id()
+    r = _fp_cache.get(key)
+    if r is None:
+        txt = _re.sub(r'!\d+', '', e.sexpr())
+        r = _hashlib.sha1(txt.encode('utf-8')).hexdigest()[:12]
+        _fp_cache[key] = r
+    return r
+
+
+def strip_path(label):
+    return label
+
+
+def load_hints(path):
+    import json
+    import os
+    if os.path.exists(path):
+        with open(path) as f:
+            for k, v in json.load(f).items():
+                HINTS.setdefault(k, set()).update(v)
 
 
 class Frame(object):
